@@ -327,7 +327,25 @@ def ufunc_call(ufunc, inputs, out, where, kwargs):
         res = _raw(out)
         res_dt = out.ldtype
     else:
-        res = _np.empty(bs, dtype=object)
+        # NumPy allocates element-wise results in 'K' order: column-major when the array operands are column-major.
+        # The layout is observable (ravel()/reshape() return views or copies depending on it), so it is reproduced by
+        # asking NumPy itself on dummies of the same shapes and orders.
+        order = 'C'
+        if len(bs) >= 2:
+            try:
+                probe = None
+                for a in arrs[:len(inputs)]:
+                    if a.ndim == 0:
+                        continue
+                    d = _np.empty(a.shape, dtype=_np.int8, order='F' if (a.flags.f_contiguous and not a.flags.c_contiguous) else 'C')
+                    if not (a.flags.f_contiguous or a.flags.c_contiguous):
+                        d = _np.empty(a.shape, dtype=_np.int8)
+                    probe = d if probe is None else _np.add(probe, d)
+                if probe is not None and probe.shape == tuple(bs) and probe.flags.f_contiguous and not probe.flags.c_contiguous:
+                    order = 'F'
+            except Exception:
+                order = 'C'
+        res = _np.empty(bs, dtype=object, order=order)
         res_dt = out_dt
     nin = len(inputs)
     scalar_result = (out is None and all(not isinstance(x, _nd) or x.ndim == 0 for x in inputs)
